@@ -22,7 +22,7 @@ if ! git apply "$PATCH" 2>/dev/null; then
     cd /; git -C /repo worktree remove --force "$S/repo"; exit 3
   fi
 fi
-rsync -a --exclude work --exclude bin --exclude evidence --exclude replays --exclude .git --exclude seeded /verif/ "$S/verif/"
+mkdir -p "$S/verif"; git -C /verif archive HEAD -- . ':!seeded' ':!evidence' | tar -x -C "$S/verif"   # committed state only
 sed -i "s#=> /repo#=> $S/repo#" "$S/verif/go.mod"
 for C in "$@"; do
   OUT=/tmp/seedrun/${NAME}_$C.log
